@@ -720,12 +720,11 @@ def main():
     codec_extract()
     extract_codec_b()
     gen_arp()
-    consts = ["-- GENERATED from /repo sources by tools/extract.py on every check; do not edit", "namespace Elvis.Gen", "end Elvis.Gen", ""]
+    # Generated/Consts.lean is shared: every contributor appends to `consts`
     consts = ["-- GENERATED from /repo sources by tools/extract.py on every check; do not edit", "namespace Elvis.Gen"]
     # C11: reassembly timer lower bound (segment.rs `const TLB: u8 = 15;`)
     tlb = const_u(os.path.join(CORE, "protocols", "ipv4", "reassembly", "segment.rs"), "TLB", "u8")
     consts += ["/-- reassembly/segment.rs `TLB` (timer lower bound, seconds) -/", f"def TLB : Nat := {tlb}"]
-    consts = ["-- GENERATED from /repo sources by tools/extract.py on every check; do not edit", "namespace Elvis.Gen"]
     consts += stack_consts()
     consts += ["end Elvis.Gen", ""]
     write_if_changed("Consts.lean", "\n".join(consts))
